@@ -296,7 +296,7 @@ def specs(tier):
         out.append(dict(module=Mo, scenario="Poly4", params=dict(what=w, valid=False)))
     for n in (4, 8, 16) if tier == "quick" else (4, 5, 8, 12, 16, 32, 64):
         out.append(dict(module=Mo, scenario="Circle", params=dict(n=n), time_budget=150 if tier == "quick" else 1500))
-    for n in (3, 5, 6) if tier == "quick" else (3, 5, 6, 7, 8, 12):
+    for n in (3, 5, 6, 7, 12, 61, 100) if tier == "quick" else (3, 5, 6, 7, 8, 9, 10, 11, 12, 17, 24, 61, 64, 100, 122, 197, 360):
         out.append(dict(module=Mo, scenario="RegularN", params=dict(n=n)))
     for k in (-1, 0, 1, 2):
         out.append(dict(module=Mo, scenario="Invalid", params=dict(what="nsides", k=k)))
